@@ -73,4 +73,23 @@ example : pyEq 0 (.scalar 1 qM) (.scalar 1 qM) false = .ok true
 
 end examples
 
+
+/-! ### witnesses over the shipped table (machine-checked on the tree they were written for; a changed table
+value can change them without touching a property theorem, hence here and not in the theorem module) -/
+
+/-- witness that the hypothesis `NumeratorKept` cannot be dropped on the current code (posc database,
+`SMALL = 1e-8`): with a = FractionScalar(FractionValue(1e-9), 'm') and
+b = FractionScalar(FractionValue(0, (3, 1)), 'nm') (1 nm and 3 nm) both `a > b` and `b > a` are true,
+and neither `a <= b` nor `b <= a`: the 3e-9 m numerator of b becomes 0 inside `Fraction(number)` -/
+theorem fscalar_order_counterexample :
+    (match poscDb.simpleQuantity (Sym.ofString "length") (Sym.ofString "m"),
+           poscDb.simpleQuantity (Sym.ofString "length") (Sym.ofString "nm") with
+     | .ok qa, .ok qb =>
+       let a : FSc := ⟨⟨1 / 1000000000, 0⟩, qa⟩
+       let b : FSc := ⟨⟨0, 3⟩, qb⟩
+       let small : Rat := 1 / 100000000
+       some (a.order poscDb small .gt b, b.order poscDb small .gt a,
+             a.order poscDb small .le b, b.order poscDb small .le a)
+     | _, _ => none) = some (.ok true, .ok true, .ok false, .ok false) := by decide +kernel
+
 end Barril
